@@ -253,26 +253,29 @@ class G:
     `ext` (fields with an order) + a seeded sampler `rnd(rng)` (backgrounds of the boundary pass) + the bit width `nbits`
     (fields with a bit structure: used to steer computed check values).  All values are plain JSON."""
 
-    def __init__(self, strat, bnd, rnd, ext=None, nbits=None):
+    def __init__(self, strat, bnd, rnd, ext=None, nbits=None, core=None):
         self.strat, self.rnd, self.ext, self.nbits = strat, rnd, ext, nbits
-        self.bnd = []
-        for b in bnd:
-            if not any(b == x and type(b) is type(x) for x in self.bnd):
-                self.bnd.append(b)
+        self.bnd = self._dedup(bnd)  # one-field-at-a-time pass
+        self.core = self.bnd if core is None else self._dedup(core)  # compact list used for full products
+
+    @staticmethod
+    def _dedup(values):
+        out = []
+        for b in values:
+            if not any(b == x and type(b) is type(x) for x in out):
+                out.append(b)
+        return out
 
     def map(self, fn):
         return G(self.strat.map(fn), [fn(b) for b in self.bnd], lambda r, s=self: fn(s.rnd(r)),
-                 None if self.ext is None else (fn(self.ext[0]), fn(self.ext[1])), self.nbits)
-
-    def also(self, *values):
-        """extra boundary values"""
-        return G(self.strat, self.bnd + list(values), self.rnd, self.ext, self.nbits)
+                 None if self.ext is None else (fn(self.ext[0]), fn(self.ext[1])), self.nbits, [fn(b) for b in self.core])
 
 
 def ONE(*gs):
     from hypothesis import strategies as st
 
-    return G(st.one_of(*[g.strat for g in gs]), [b for g in gs for b in g.bnd], lambda r: gs[r.randrange(len(gs))].rnd(r), gs[0].ext, gs[0].nbits)
+    return G(st.one_of(*[g.strat for g in gs]), [b for g in gs for b in g.bnd], lambda r: gs[r.randrange(len(gs))].rnd(r), gs[0].ext, gs[0].nbits,
+             [b for g in gs for b in g.core])
 
 
 def CH(values, ordered=False):
@@ -355,7 +358,8 @@ def _build_variants():
             k = (n + 7) // 8
             uni = st.binary(min_size=k, max_size=k).map(lambda b, n=n: int.from_bytes(b, "big") & ((1 << n) - 1))
             strat = st.one_of(st.integers(0, m), uni)
-        return G(strat, ubnd(n), lambda r, n=n: r.getrandbits(n) if n else 0, (0, m), n)
+        # fields of up to 8 bits (counts, lengths, sequence numbers ...) take every value in the one-field-at-a-time pass
+        return G(strat, list(range(1 << n)) if n <= 8 else ubnd(n), lambda r, n=n: r.getrandbits(n) if n else 0, (0, m), n, ubnd(n))
 
     B = CH([False, True], ordered=True)
     B01 = G(st.sampled_from([False, True, 0, 1]), [False, True, 0, 1], lambda r: [False, True, 0, 1][r.randrange(4)], (False, True))
@@ -373,7 +377,7 @@ def _build_variants():
         if n == 0:
             return CH([""])
         g = U(n)
-        return G(g.strat, g.bnd + alt(n), g.rnd, g.ext, n).map(lambda v, n=n: format(v, f"0{n}b"))
+        return G(g.strat, g.bnd + alt(n), g.rnd, g.ext, n, g.core + alt(n)).map(lambda v, n=n: format(v, f"0{n}b"))
 
     def HEX(n):
         g = U(8 * n)
@@ -762,10 +766,11 @@ def boundary_cases(v, rng):
             out.append(("all_extreme", dict(bg, **{fl.kw: g.ext[side] for fl, g in ordered})))
     size = 1
     for fl, g in varied:
-        size *= len(g.bnd)
+        size *= len(g.core)
     if size <= 3000:
-        for combo in itertools.product(*[g.bnd for fl, g in varied]):
+        for combo in itertools.product(*[g.core for fl, g in varied]):
             out.append(("product", dict(bgs[0], **{fl.kw: b for (fl, g), b in zip(varied, combo)})))
+    out.extend(_dedicated_code_cases(v, bgs, varied))
     out.extend(_check_extreme_cases(v, bgs))
     seen, res = set(), []
     for label, f in out:
@@ -774,6 +779,86 @@ def boundary_cases(v, rng):
             seen.add(k)
             res.append((label, {"variant": v.name, "f": f}))
     return res
+
+
+def set_window(kind, v, pos, width, code):
+    """write `code` into `width` bits of a JSON bit/byte-string value, `pos` bits from its first bit; None if it does not fit"""
+    if not isinstance(v, str):
+        return None
+    tag, sep, body = v.partition(":")
+    if not sep:
+        tag, body = ("hex" if kind == "bytes" else "bits"), v
+    n = 4 * len(body) if tag == "hex" else len(body)
+    if n < pos + width or code >> width or not body:
+        return None
+    val = int(body, 16 if tag == "hex" else 2)
+    shift = n - pos - width
+    val = (val & ~(((1 << width) - 1) << shift)) | (code << shift)
+    out = format(val, f"0{len(body)}x") if tag == "hex" else format(val, f"0{n}b")
+    return (tag + ":" + out) if sep else out
+
+
+def _variant_codes(v):
+    """(codes, meanings): the integer values of all members of every identifier / enum element the variant carries (values
+    that have a dedicated code elsewhere in the same PDU), and the explicit values those members stand for according to
+    vp/refs/elements_ref.DEDICATED with their +-1 neighbours and the decoy values of the same kind."""
+    import enum
+
+    codes, meanings, decoys = set(), set(), set()
+    for fl in v.fields:
+        if fl.kind.startswith("enum:"):
+            name = fl.kind[5:]
+            codes.update(m.value for m in lib(name) if isinstance(m.value, int) and not isinstance(m.value, bool) and m.value >= 0)
+            meanings.update(elements_ref.dedicated_values(name))
+            decoys.update(elements_ref.EXPLICIT_DECOYS.get(name, []))
+    return sorted(codes), sorted(meanings), sorted(decoys)
+
+
+def _dedicated_code_cases(v, bgs, varied):
+    """A free-form field holding a value that has a dedicated code elsewhere in the same PDU: every free-form integer field
+    takes every member value of every enum the variant carries and every explicit value such a member stands for (+-1, plus
+    decoys); wide free-form fields take the explicit values pairwise (source and destination together); bit / byte string
+    fields take them in their first and last 8 / 16 bits; small integer fields of one variant take equal and adjacent values
+    (length-like fields against each other).  The variant table already puts the identifier at its escape member where an
+    explicit field exists (udp.ext1_src / ext1_dst / ext2)."""
+    import itertools
+
+    codes, meanings, decoys = _variant_codes(v)
+    out = []
+    free_int = [(fl, g) for fl, g in varied if not fl.check and g.nbits and fl.kind in ("int", "int|bits", "int|bytes")]
+    for fl, g in free_int:
+        for c in dict.fromkeys(codes + meanings + decoys):
+            if c >> g.nbits:
+                continue
+            for bg in bgs:
+                out.append(("dedicated_code", dict(bg, **{fl.kw: c})))
+    wide = [(fl, g) for fl, g in free_int if g.nbits >= 16]
+    for (f1, g1), (f2, g2) in itertools.combinations(wide, 2):
+        for m1 in meanings:
+            for m2 in meanings:
+                if not (m1 >> g1.nbits or m2 >> g2.nbits):
+                    for bg in bgs:
+                        out.append(("dedicated_code_pair", dict(bg, **{f1.kw: m1, f2.kw: m2})))
+    strings = [(fl, g) for fl, g in varied if not fl.check and fl.kind in ("bits", "bytes", "bytes|bits")]
+    for fl, g in strings:
+        for c in dict.fromkeys(codes + meanings):
+            width = 8 if c < 256 else 16
+            for bg in bgs:
+                base = bg[fl.kw]
+                n = (4 if (fl.kind == "bytes" or str(base).startswith("hex:")) else 1) * len(str(base).partition(":")[2] or str(base))
+                for pos in (0, n - width):
+                    w = set_window(fl.kind, base, pos, width, c) if pos >= 0 else None
+                    if w is not None:
+                        out.append(("dedicated_code_in_string", dict(bg, **{fl.kw: w})))
+    small = [(fl, g) for fl, g in free_int if g.nbits <= 8]
+    for (f1, g1), (f2, g2) in itertools.combinations(small, 2):
+        top = min((1 << g1.nbits), (1 << g2.nbits)) - 1
+        for a in dict.fromkeys([0, 1, 2, top // 2, top - 1, top]):
+            for da, db in ((0, 0), (0, 1), (1, 0)):
+                if a + da <= (1 << g1.nbits) - 1 and a + db <= (1 << g2.nbits) - 1:
+                    for bg in bgs:
+                        out.append(("equal_or_adjacent_pair", dict(bg, **{f1.kw: a + da, f2.kw: a + db})))
+    return out
 
 
 def _check_extreme_cases(v, bgs):
@@ -853,8 +938,11 @@ _LAST = {}
 
 
 class Dec:
-    def __init__(self, name, cls, n, allowed, templates, method="from_bits", typed=None, lengths=None):
+    def __init__(self, name, cls, n, allowed, templates, method="from_bits", typed=None, lengths=None, slots=None):
         self.name, self.cls, self.n, self.allowed, self.templates, self.method, self.typed, self.lengths = name, cls, n, allowed, templates, method, typed, lengths
+        # explicit-value slots: [{"force": [(lo, hi, values)] identifier(s) at the escape member, "fields": [(lo, hi)] free-form
+        # fields that then carry the value explicitly, "elem": identifier element of vp/refs/elements_ref.DEDICATED, "min_len": n}]
+        self.slots = slots or []
 
     def run(self, bits: bitarray):
         c = lib(self.cls)
@@ -958,9 +1046,15 @@ def _build_decoders():
             add(Dec(f"{cls.lower()}.from_bits_typed.{tname}", cls, n, (), [[(7, 16, [0])]] if tname.startswith("Confirmed") else [],
                     method="from_bits_typed", typed=(tcls, tname)))
     udp_t = [[(25, 32, [0])], [(33, 40, [0])], [(25, 32, [0]), (33, 40, [0])], [(25, 32, [0, 1, 2, 3, 94, 95, 127]), (33, 40, [0, 1, 2, 3, 94, 95, 127])]]
-    add(Dec("udp.from_bits", "UDPIPv4CompressedHeader", None, (AE,), udp_t,
+    other_ids = [1, 2, 3, 95, 127]
+    udp_slots = [
+        {"force": [(25, 32, [0]), (33, 40, other_ids)], "fields": [(40, 56)], "elem": "UDPPortIdentifier", "min_len": 56},
+        {"force": [(33, 40, [0]), (25, 32, other_ids)], "fields": [(40, 56)], "elem": "UDPPortIdentifier", "min_len": 56},
+        {"force": [(25, 32, [0]), (33, 40, [0])], "fields": [(40, 56), (56, 72)], "elem": "UDPPortIdentifier", "min_len": 72},
+    ]
+    add(Dec("udp.from_bits", "UDPIPv4CompressedHeader", None, (AE,), udp_t, slots=udp_slots,
             lengths=st.one_of(st.integers(5, 30).map(lambda k: 8 * k), st.integers(40, 80), st.sampled_from([40, 48, 55, 56, 64, 71, 72, 80]))))
-    add(Dec("udp.from_bytes", "UDPIPv4CompressedHeader", None, (AE,), udp_t, method="from_bytes",
+    add(Dec("udp.from_bytes", "UDPIPv4CompressedHeader", None, (AE,), udp_t, method="from_bytes", slots=udp_slots,
             lengths=st.one_of(st.integers(5, 30), st.sampled_from([5, 6, 7, 8, 9, 10])).map(lambda k: 8 * k)))
     add(Dec("slot_type.from_bits", "SlotType", 20, (), [[(8, 20, [0])], [(4, 8, [12, 13, 14, 15])]]))
     add(Dec("emb.from_bits", "EmbeddedSignalling", 16, (), [[(7, 16, [0])]]))
@@ -1070,12 +1164,48 @@ def decode_boundary_cases(d, rng):
             if flips:
                 for i in range(flip_limit):
                     out.append((lab + "+flip", n, val ^ (1 << (n - 1 - i))))
+    out.extend(_decode_dedicated_cases(d, rng))
     seen, res = set(), []
     for lab, n, val in out:
         if (n, val) not in seen:
             seen.add((n, val))
             res.append((lab, {"dec": d.name, "bits": format(val, f"0{n}b")}))
     return res
+
+
+def _decode_dedicated_cases(d, rng):
+    """Strings in which an identifier sits at its escape member and the free-form field it points to carries every explicit
+    value that a member of that identifier stands for (+-1, decoys, the member values themselves): each explicit field on its
+    own and all of them together, at the exact-fit length and with 8 / 32 further bits, zero / one / random fill."""
+    import itertools
+
+    out = []
+    for slot in d.slots:
+        elem = slot["elem"]
+        ded = elements_ref.dedicated_values(elem)
+        values = list(dict.fromkeys(ded + elements_ref.EXPLICIT_DECOYS.get(elem, []) + sorted(m.value for m in lib(elem)) + [0xFFFF, 0x8000]))
+        for n in (slot["min_len"], slot["min_len"] + 8, slot["min_len"] + 32):
+            ones = (1 << n) - 1
+
+            def put(val, lo, hi, x, n=n):
+                w, shift = hi - lo, n - hi
+                return (val & ~(((1 << w) - 1) << shift)) | ((x & ((1 << w) - 1)) << shift)
+
+            for forced in itertools.product(*[vals for lo, hi, vals in slot["force"]]):
+                for fill in (0, ones, rng.getrandbits(n)):
+                    base = fill
+                    for (lo, hi, _), x in zip(slot["force"], forced):
+                        base = put(base, lo, hi, x)
+                    for lo, hi in slot["fields"]:
+                        for x in values:
+                            out.append(("dedicated_value_in_explicit_field", n, put(base, lo, hi, x)))
+                    if len(slot["fields"]) > 1:
+                        for combo in itertools.product(ded, repeat=len(slot["fields"])):
+                            val = base
+                            for (lo, hi), x in zip(slot["fields"], combo):
+                                val = put(val, lo, hi, x)
+                            out.append(("dedicated_values_together", n, val))
+    return out
 
 
 def drv_decode_boundary(ctx: Ctx, sub: SubCheck):
@@ -1162,9 +1292,12 @@ def drv_atheris(ctx: Ctx, sub: SubCheck):
             if os.path.exists(findings):
                 with open(findings) as fh:
                     inputs.extend(line.split()[0] for line in fh if line.strip())
-            for fn in sorted(os.listdir(corpus)):
-                with open(os.path.join(corpus, fn), "rb") as fh:
-                    inputs.append(fh.read().hex())
+            try:
+                for fn in sorted(os.listdir(corpus)):
+                    with open(os.path.join(corpus, fn), "rb") as fh:
+                        inputs.append(fh.read().hex())
+            except OSError as e:  # scratch directory removed under us: the campaign's inputs are lost, not a property matter
+                ctx.tally.notes.append(f"atheris corpus unreadable ({type(e).__name__}); its entries were not re-judged")
             if p.returncode not in (0, None):
                 # the harness itself stopped (uncaught exception / signal): the unit it stopped on is re-judged below like
                 # every other input; the tail of its stderr goes into the evidence notes
@@ -1173,10 +1306,13 @@ def drv_atheris(ctx: Ctx, sub: SubCheck):
                 if os.environ.get("VP_ATHERIS_KEEP_STDERR"):
                     with open(os.environ["VP_ATHERIS_KEEP_STDERR"], "a") as fh:
                         fh.write(err or "")
-        for fn in sorted(os.listdir(tmp)):
-            if fn.startswith("art") and os.path.isfile(os.path.join(tmp, fn)):
-                with open(os.path.join(tmp, fn), "rb") as fh:
-                    inputs.append(fh.read().hex())
+        try:
+            for fn in sorted(os.listdir(tmp)):
+                if fn.startswith("art") and os.path.isfile(os.path.join(tmp, fn)):
+                    with open(os.path.join(tmp, fn), "rb") as fh:
+                        inputs.append(fh.read().hex())
+        except OSError:
+            pass
         seen = set()
         for h in inputs:
             case = case_from_fuzz_bytes(bytes.fromhex(h))
